@@ -148,7 +148,7 @@ fn main() {
             recover_seq_narrow: 3,
             recover_seq_wide: 2,
             threads,
-            cap_s: 40.0,
+            cap_s: 240.0,
         },
         Tier::Thorough => Params {
             tier: "thorough",
@@ -162,7 +162,7 @@ fn main() {
             recover_seq_narrow: 3,
             recover_seq_wide: 3,
             threads,
-            cap_s: 600.0,
+            cap_s: 1500.0,
         },
     };
 
